@@ -44,6 +44,24 @@ CHECKS["C18"] = dict(
     design_ref="DESIGN.md section 6, C18",
 )
 
+CHECKS["C06"] = dict(
+    category="other",
+    technique="table reading: both Mac Roman match tables read from MIR (SwitchInt maps + range guards) and compared exhaustively for mutual inverseness",
+    text=("Static, exhaustive decision of the clause 'the Mac Roman conversions are mutual inverses': all 256 codes and every scalar "
+          "value distinguished by either table (the functions are piecewise constant/identity between breakpoints, so this covers "
+          "all 0x110000 values). cmap format lookup arithmetic, preference order and Big5 (encoding_rs) are not decided."),
+    design_ref="DESIGN.md section 6, C06",
+)
+CHECKS["C12"] = dict(
+    category="other",
+    technique="MIR dataflow/dominance rules on variations::instance (tag provenance through the filter closure, predicate reading, must-dominate), call-graph SCC depth-guard rule",
+    text=("Static decision of the clause 'a successful instance is a static font': no add_table of a variation tag (constant tags "
+          "checked, dynamic tags must pass a filter that rejects is_var_table tags; the predicate itself is read and must match all "
+          "seven variation tags), the CFF2 variation store is cleared before writing, the result comes from the single sfnt producer, "
+          "and the bounding-box recursion is depth-bounded. All numeric clauses of the variation model are not decided."),
+    design_ref="DESIGN.md section 6, C12",
+)
+
 NOT_APPLICABLE = {
     "C05": "every clause is a numeric relation between table contents and output values; the structural parts (termination, borrow and panic discipline, attachment index validation) are decided under C02; no GPOS-specific clause is visible in the shape of the code",
 }
